@@ -703,6 +703,14 @@ def _iter_unused_names(
     if isinstance(scope, (ast.For, ast.While)):
         *_, required_names = tracing.code_dependencies_outputs([scope])
         preserve = preserve | required_names
+    if isinstance(scope, ast.Try):
+        # What is assigned in the body may be read in a handler, the else or the finally block.
+        preserve = preserve | {
+            name.id
+            for block in (scope.handlers, scope.orelse, scope.finalbody)
+            for node in block
+            for name in core.walk(node, ast.Name(ctx=ast.Load))
+        }
 
     for body in filter(None, bodies):
         names_defined_in_scope = {
